@@ -429,6 +429,14 @@ func c14Gen(r *hx.Rng, n int, tier string) []string {
 	lines = append(lines, directed()...)
 	lines = append(lines, directedWire()...)
 	lines = append(lines, directed2()...)
+	// the malformed stream for the table of panic sites (gen6.go); thinned in the quick tier
+	step := 4
+	if tier == "thorough" {
+		step = 1
+	}
+	sites := append(directedSites(step), directedNil()...)
+	lines = append(lines, sites...)
+	n += len(sites) // the random part keeps its size
 	for len(lines) < n {
 		x := r.Intn(100)
 		switch {
